@@ -162,3 +162,88 @@ def paths(stmts, limit=4000):
             return [([("stmt", st)] + t, e) for t, e in seq(st.body)]
         return [([("stmt", st)], "fall")]
     return seq(stmts)
+
+
+def str_templates(expr):
+    """Canonical templates of a string-building expression: [(conditions, text)] where text has literal parts verbatim and
+    every dynamic part as {<source text>}.  Understands +, str.format (positional / keyword / auto-numbered), % with a tuple,
+    f-strings, and conditional expressions (one template per branch).  Returns None for an unsupported shape."""
+    import string
+
+    def esc(s):
+        return s.replace("{", "{{").replace("}", "}}")
+
+    def go(e):
+        if isinstance(e, ast.Constant) and isinstance(e.value, str):
+            return [((), esc(e.value))]
+        if isinstance(e, ast.BinOp) and isinstance(e.op, ast.Add):
+            l, r = go(e.left), go(e.right)
+            if l is None or r is None:
+                return None
+            return [(c1 + c2, a + b) for c1, a in l for c2, b in r]
+        if isinstance(e, ast.IfExp):
+            a, b = go(e.body), go(e.orelse)
+            if a is None or b is None:
+                return None
+            t = U(e.test)
+            return [(((t, True),) + c, x) for c, x in a] + [(((t, False),) + c, x) for c, x in b]
+        if isinstance(e, ast.JoinedStr):
+            res = [((), "")]
+            for v in e.values:
+                if isinstance(v, ast.Constant):
+                    sub = [((), esc(v.value))]
+                elif isinstance(v, ast.FormattedValue) and v.conversion == -1 and v.format_spec is None:
+                    sub = go(v.value)
+                else:
+                    return None
+                if sub is None:
+                    return None
+                res = [(c1 + c2, a + b) for c1, a in res for c2, b in sub]
+            return res
+        if isinstance(e, ast.Call) and isinstance(e.func, ast.Attribute) and e.func.attr == "format" and isinstance(e.func.value, ast.Constant) and isinstance(e.func.value.value, str):
+            if any(isinstance(a, ast.Starred) for a in e.args) or any(k.arg is None for k in e.keywords):
+                return None
+            kw = dict((k.arg, k.value) for k in e.keywords)
+            res = [((), "")]
+            auto = 0
+            try:
+                pieces = list(string.Formatter().parse(e.func.value.value))
+            except ValueError:
+                return None
+            for lit, field, spec, conv in pieces:
+                res = [(c, a + esc(lit)) for c, a in res]
+                if field is None:
+                    continue
+                if spec or conv:
+                    return None
+                if field == "":
+                    field = str(auto)
+                    auto += 1
+                if field.isdigit():
+                    if int(field) >= len(e.args):
+                        return None
+                    arg = e.args[int(field)]
+                elif field in kw:
+                    arg = kw[field]
+                else:
+                    return None
+                sub = go(arg)
+                if sub is None:
+                    return None
+                res = [(c1 + c2, a + b) for c1, a in res for c2, b in sub]
+            return res
+        if isinstance(e, ast.BinOp) and isinstance(e.op, ast.Mod) and isinstance(e.left, ast.Constant) and isinstance(e.left.value, str):
+            args = list(e.right.elts) if isinstance(e.right, ast.Tuple) else [e.right]
+            parts = e.left.value.split("%s")
+            if len(parts) != len(args) + 1 or "%" in "".join(parts).replace("%%", ""):
+                return None
+            res = [((), parts[0].replace("%%", "%"))]
+            for a, lit in zip(args, parts[1:]):
+                sub = go(a)
+                if sub is None:
+                    return None
+                res = [(c1 + c2, x + y + lit.replace("%%", "%")) for c1, x in res for c2, y in sub]
+            return res
+        # dynamic part
+        return [((), "{%s}" % U(e))]
+    return go(expr)
